@@ -17,6 +17,7 @@ collect_requests and both send_responses calls follow it before the next iterati
 (4) Send loop: iterates `requests` to exhaustion (only exit = iterator exhausted; a failed send does not leave the loop), exactly
 one send_to per iteration outside any inner loop, destination / nonce / index taken from that iteration's element (C02.5).
 (5) Rejected datagrams cause none (C07.3).  The serving loop is single-threaded per worker, so its CFG covers every interleaving of arrivals.(6) "Proving its own inclusion": C02's leaf-definition and response-assembly rules (what is hashed as the leaf of a request; INDX, PATH, nonce and destination from one queued element).
+(7) Requests still queued in the socket get their pass: C08's wake-up rules (level-triggered registration, bounded loops).
 """
 NOT_DECIDED = "kernel delivery of the datagram"
 TRUSTED = ["Vec::push / slice::iter().enumerate() semantics"]
